@@ -11,6 +11,21 @@ E3 = "exhaustive / preemption-bounded prange schedule enumeration on source-deri
 
 # id -> (built, category, technique, text, note, design_ref)
 CHECKS = {
+    "C04": (
+        True,
+        "exploration",
+        E1 + " (three layers) + M1 writer + frozen Hilbert table",
+        "Layer 1: the tree's _hilbert3d on every cell of the 2^b grids (b<=3/4): bijection, face adjacency of consecutive keys, prefix "
+        "nesting, agreement with a frozen table. Layer 2: the real hilbert_cpu_list/_get_cpu_list for every dyadic box at levelmax 2 "
+        "(all 1000) and 3 (1331 quick / all 46656 thorough) x bound-key lattice (every cut at levelmax 2 in thorough; pairs of cuts for 3 "
+        "cpus, incl. empty domains) x levelmin x lmax: the list must contain the owner of every potential cell of any admissible "
+        "level whose centre is in the box (= quantification over all trees). Layer 3: 25+ outputs (1-D, 2-D, 3-D; levelmin 1-3; 2-3 "
+        "cpus; Hilbert and planar ordering) x interval predicates on 1-3 axes (incl. boxes smaller than leaves and touching edges), "
+        "value predicates, their AND, and every explicit cpu_list: selective load == filter(full load) as multisets over all columns.",
+        "Trusted: frozen copy of RAMSES' Hilbert state diagrams (validated structurally), M1 writer, RAMSES ownership rule "
+        "(key of the father cell's centre).",
+        "DESIGN.md §3 C04",
+    ),
     "C15": (
         True,
         "model_checking",
